@@ -636,6 +636,8 @@ theorem inputsOK_submit {s : Pool} (h : InputsOK s) (t : Tx) (st : Status) (ts :
     | none => rfl
     | some y => cases y <;> rfl)
 
+@[simp] theorem rebuild_deps (s : Pool) (ids : List Nat) : (rebuild s ids).deps = s.deps := rfl
+@[simp] theorem rebuild_hdeps (s : Pool) (ids : List Nat) : (rebuild s ids).hdeps = s.hdeps := rfl
 @[simp] theorem rebuild_cfg (s : Pool) (ids : List Nat) : (rebuild s ids).cfg = s.cfg := rfl
 @[simp] theorem rebuild_ghostBad (s : Pool) (ids : List Nat) : (rebuild s ids).ghostBad = s.ghostBad := rfl
 
